@@ -28,9 +28,9 @@ type CPStmt struct {
 }
 
 type CPFunc struct {
-	Variadic bool   `json:"variadic,omitempty"` // func f(ds ...int): d is ds[0]
-	Method bool     `json:"method,omitempty"`
-	Stmts  []CPStmt `json:"stmts"`
+	Variadic bool     `json:"variadic,omitempty"` // func f(ds ...int): d is ds[0]
+	Method   bool     `json:"method,omitempty"`
+	Stmts    []CPStmt `json:"stmts"`
 }
 
 type CPPlan struct {
@@ -57,13 +57,13 @@ type cpSite struct {
 }
 
 type cpRendered struct {
-	TextB string // second file (empty when the program is one file)
-	FuncFile []string // file of each function
+	TextB      string         // second file (empty when the program is one file)
+	FuncFile   []string       // file of each function
 	HelperLine map[string]int // line of the single statement of each helper function
-	ML    map[int]bool // lines that open a multi-line call
-	Text  string
-	Sites map[int]cpSite
-	Names []string // function display names as goatlang prints them
+	ML         map[int]bool   // lines that open a multi-line call
+	Text       string
+	Sites      map[int]cpSite
+	Names      []string // function display names as goatlang prints them
 }
 
 func cpFuncName(i int, f *CPFunc) string {
